@@ -261,3 +261,12 @@ Proof. intros H0 H1 H2 H3 H4 Hn.
   rewrite (lich_word_ok 0 _ ltac:(lia) L0), (lich_word_ok 1 _ ltac:(lia) L1),
           (lich_word_ok 2 _ ltac:(lia) L2), (lich_word_ok 3 _ ltac:(lia) L3).
   rewrite E0, E1, E2, E3. reflexivity. Qed.
+
+Lemma golay24_bits_length d : length (golay24_bits d) = 24%nat.
+Proof. Transparent golay24_bits. unfold golay24_bits, N_bits. Opaque golay24_bits. rewrite map_length, seq_length. reflexivity. Qed.
+
+Lemma lich_spec_length s0 s1 s2 s3 s4 n :
+  length (flat_map (fun w => golay24_bits (bits_N w)) (groups 12 (bytes_bits ([s0; s1; s2; s3; s4] ++ [32 * n])))) = 96%nat.
+Proof. unfold bytes_bits. cbn [app flat_map]. rewrite app_nil_r.
+  rewrite groups12_of_48 by apply byte_bits_length.
+  cbn [flat_map]. rewrite !app_length, !golay24_bits_length. reflexivity. Qed.
